@@ -16,7 +16,7 @@ from types import (
     MemberDescriptorType,
     MethodType,
 )
-from typing import Any, Callable, Dict, Iterator, Optional, Union, cast
+from typing import Any, Callable, Dict, Iterator, Optional, Tuple, Union, cast
 
 import opcode
 
@@ -265,15 +265,20 @@ class CallTracer:
         self.logger = logger
         self.traces: Dict[FrameType, CallTrace] = {}
         self.sample_rate = sample_rate
-        self.cache: Dict[CodeType, Optional[Callable[..., Any]]] = {}
+        # Keyed by id(code): co_filename is not part of code equality, so identical
+        # functions of two files (a vendored copy of a module, say) have equal code
+        # objects and would share one entry. The entry keeps the code object alive,
+        # so its id is not reused.
+        self.cache: Dict[int, Tuple[CodeType, Optional[Callable[..., Any]]]] = {}
         self.should_trace = code_filter
         self.max_typed_dict_size = max_typed_dict_size
 
     def _get_func(self, frame: FrameType) -> Optional[Callable[..., Any]]:
         code = frame.f_code
-        if code not in self.cache:
-            self.cache[code] = get_func(frame)
-        return self.cache[code]
+        entry = self.cache.get(id(code))
+        if entry is None:
+            entry = self.cache[id(code)] = (code, get_func(frame))
+        return entry[1]
 
     def handle_call(self, frame: FrameType) -> None:
         if _is_resumption(frame):
